@@ -143,7 +143,11 @@ func (w *world) onErr(ev any, t reflect.Type, err error) {
 	w.errCalls = append(w.errCalls, errCall{idOf(ev), t, err})
 }
 
-func publish(bus *ebu.EventBus, ev any) {
+func publish(bus *ebu.EventBus, ev any, viaAny bool) {
+	if viaAny {
+		ebu.Publish[any](bus, ev) // an outbox of interface-typed events being drained
+		return
+	}
 	switch e := ev.(type) {
 	case flex:
 		ebu.Publish(bus, e)
@@ -190,6 +194,28 @@ func subscribeAll(w *world, nHandlers int) {
 		ebu.SubscribeContext(w.bus, func(context.Context, invalidJSON) { w.handled[2].Add(1) })
 		ebu.SubscribeContext(w.bus, func(context.Context, *ptrMarshal) { w.handled[2].Add(1) })
 	}
+}
+
+// keeper is the front of a write-behind store: it remembers every *Event the store accepted
+// (pointer and a copy of what it said at that moment).
+type keeper struct {
+	inner ebu.EventStore
+	kept  []keptEvent
+}
+type keptEvent struct {
+	e         *ebu.Event
+	typ, data string
+}
+
+func (k *keeper) Append(ctx context.Context, e *ebu.Event) (ebu.Offset, error) {
+	off, err := k.inner.Append(ctx, e)
+	if err == nil {
+		k.kept = append(k.kept, keptEvent{e, e.Type, string(e.Data)})
+	}
+	return off, err
+}
+func (k *keeper) Read(ctx context.Context, from ebu.Offset, limit int) ([]*ebu.StoredEvent, ebu.Offset, error) {
+	return k.inner.Read(ctx, from, limit)
 }
 
 func TestC13Patterns(t *testing.T) {
@@ -259,7 +285,8 @@ func runPattern(run *vk.Run, pattern []int, variant int) {
 		}
 	}
 	w.faults.ByKind["append"] = fa
-	opts := []ebu.Option{ebu.WithStore(stores.Wrap(w.mem, w.faults)), ebu.WithSubscriptionStore(ebu.NewMemoryStore())}
+	keep := &keeper{inner: stores.Wrap(w.mem, w.faults)}
+	opts := []ebu.Option{ebu.WithStore(keep), ebu.WithSubscriptionStore(ebu.NewMemoryStore())}
 	if ehMode == 0 {
 		opts = append(opts, ebu.WithPersistenceErrorHandler(w.onErr))
 	}
@@ -321,7 +348,7 @@ func runPattern(run *vk.Run, pattern []int, variant int) {
 					viol("publish-panicked", fmt.Sprintf("publish #%d panicked: %v", id, r))
 				}
 			}()
-			publish(w.bus, ev)
+			publish(w.bus, ev, (id+variant)%3 == 0)
 			w.bus.Wait()
 		}()
 		hung := false
@@ -420,6 +447,14 @@ func runPattern(run *vk.Run, pattern []int, variant int) {
 			viol("offsets-not-increasing", fmt.Sprintf("record %d has offset %q after %q", i, e.Offset, prev))
 		}
 		prev = e.Offset
+	}
+	// a write-behind store keeps the *Event it accepted until it flushes: what it accepted must
+	// still be what it holds, and what it rejected must not have taken its place
+	for i, k := range keep.kept {
+		if k.e.Type != k.typ || string(k.e.Data) != k.data {
+			viol("accepted-event-changed-after-append", fmt.Sprintf("the %d-th accepted *Event was %s %s when Append returned and reads %s %s after the later publishes", i+1, k.typ, k.data, k.e.Type, k.e.Data))
+			break
+		}
 	}
 	succAfterFail, consec := false, false
 	for i := 1; i < len(pattern); i++ {
